@@ -284,6 +284,27 @@ class Lib:
             if fn == "enumerate":
                 n, g = self.iteration(ex, st, node.args[0])
                 return n, (lambda s, k: SV(TPy("pytuple"), py=[SV(INT, k), g(s, k)]))
+            if fn == "zip" and len(node.args) == 1 and isinstance(node.args[0], ast.Starred):
+                # zip(*x): transposition of a list of equally long lists; item k = [row[k] for row in x]
+                x = ex.ev(st, node.args[0].value)
+                if not (isinstance(x.t, TSeq) and isinstance(x.t.elem, TSeq)):
+                    raise self.E.Unsupported("zip(*%s)" % x.t)
+                inner = x.t.elem
+                xa = x.t.arr(x.z)
+                nrows = ex.seq_len(x)
+                if not st.spec:
+                    ex.oblige(st, "safety.zip_star_nonempty", nrows >= 1, "safety", node,
+                              "zip(*x) over at least one list")
+                    j = ex.bvar("j")
+                    ex.oblige(st, "safety.zip_star_equal_lengths",
+                              z3.ForAll([j], z3.Implies(z3.And(0 <= j, j < nrows),
+                                                        inner.len(xa[j]) == inner.len(xa[0])), patterns=[xa[j]]),
+                              "safety", node, "zip(*x): all lists equally long (otherwise items are silently dropped)")
+                n = inner.len(xa[0])
+
+                def getter(s, k):
+                    return ex.new_seq(s, inner.elem, nrows, lambda jj: inner.arr(xa[jj])[k], "tuple", "col")
+                return n, getter
             if fn == "zip":
                 if any(isinstance(a, ast.Starred) for a in node.args):
                     raise self.E.Unsupported("zip(*x)")
@@ -336,6 +357,9 @@ class Lib:
         n, getter = self.iteration(ex, st, gen.iter)
         j = ex.bvar("j")
         saved = dict(st.env)
+        outer_expect = getattr(st, "_expect_elem", None)
+        # the declared element type of the comprehension's target describes the ELEMENTS being built
+        st._expect_elem = outer_expect.elem if isinstance(outer_expect, TSeq) else None
         ex.push_binder(st, [j], z3.And(0 <= j, j < n))
         try:
             ex.assign_to(st, gen.target, getter(st, j), node)
@@ -353,6 +377,11 @@ class Lib:
         finally:
             ex.pop_binder(st)
             st.env = saved
+            st._expect_elem = outer_expect
+        if isinstance(val.t, TPy) and val.t.what == "emptylist":
+            exp = getattr(st, "_expect_elem", None)
+            if isinstance(exp, TSeq):
+                val = ex.seq_lit(st, [], exp.elem, exp.kind)     # [[] for ...] with a declared element type
         if isinstance(val.t, TPy):
             if val.t.what == "emptylist":
                 raise self.E.Unsupported("comprehension of empty lists needs a declared type")
